@@ -31,7 +31,7 @@ def id_steps(g, name):
 def gen(ctx, rng, nlibs, per, tag):
     libs, cases = [], []
     for li in range(nlibs):
-        lib = cfggen.gen_library(rng, f"{tag}_{ctx.seed}_{li}")
+        lib = cfggen.gen_library(rng, f"{tag}_{ctx.seed}_{li}", cfg_defaults=common.CFG_DEFAULTS)
         libs.append(lib)
         for _ in range(per):
             g = cfggen.gen_graph(rng, lib, max_nodes=rng.choice([3, 6, 10]))
@@ -73,7 +73,7 @@ def class_edit_cases(ctx, rng, nlibs, per):
     (same package name and type identifiers: run in separate worker processes)"""
     libs, libs2, cases, infos = [], [], [], []
     for li in range(nlibs):
-        lib = cfggen.gen_library(rng, f"c02k_{ctx.seed}_{li}")
+        lib = cfggen.gen_library(rng, f"c02k_{ctx.seed}_{li}", cfg_defaults=common.CFG_DEFAULTS)
         graphs = [cfggen.gen_graph(rng, lib, max_nodes=rng.choice([3, 6, 10])) for _ in range(per)]
         used = {nd["cls"] for g in graphs for nd in g["nodes"]}
         lib2, info = edits.class_edit(rng, lib, prefer=used)
